@@ -6,6 +6,7 @@ let modes : (string * (string -> string)) list = [
   "codec", Mode_codec.check_line;
   "srvseq", Mode_srvseq.check_line;
   "recv", Mode_recv.check_line;
+  "ufs", Mode_ufs.check_line;
 ]
 
 let () =
